@@ -15,7 +15,7 @@ LEVEL_TEXT = 'Lean 4 theorems over the transcription of every toJsonFragment/fro
 LEVEL_NOTE = "Python's json module (text level) is trusted; known finding C04-bool-category (bool-valued categories) is excluded from the generator. Hypotheses good/uniform/knownCtype are executable and evaluated on the model's copy of every serialised state."
 TECHNIQUE = 'Lean 4 proof (codec round trip for all primitives) + correspondence through the real JSON codec + oracle'
 LEAN_MODULE = "Hg.Props.C04"
-THEOREMS = ["Hg.C04.decode_encode", "Hg.C04.decode_encode_live", "Hg.C04.encode_immut", "Hg.C04.encode_noNull", "Hg.C04.decode_encode_immut", "Hg.C04.good_immut", "Hg.C04.zero_immut", "Hg.C04.mul_immut", "Hg.C04.add_immut", "Hg.C04.copy_immut"]
+THEOREMS = ["Hg.C04.decode_encode", "Hg.C04.decode_encode_live", "Hg.C04.encode_immut", "Hg.C04.encode_noNull", "Hg.C04.decode_encode_immut", "Hg.C04.good_immut", "Hg.C04.zero_immut", "Hg.C04.mul_immut", "Hg.C04.add_immut", "Hg.C04.copy_immut", "Hg.C04.history_roundtrip"]
 CASES = {"quick": 300, "thorough": 10000}
 RULE = ("random tree (19 primitives in every child/flow position, named and unnamed quantities, depth<=3), two filled states "
         "a, b (possibly empty; optionally pre-combined with + / * / copy), serialised, reloaded and used in +, *, zero(), copy() "
@@ -61,6 +61,9 @@ def build(p):
     expect = []
     for name in ("good", "uniform", "knownctype"):
         ops.append(("mcheck", [name, "a"], True))
+    # the hypothesis of history_roundtrip on the empty tree: uniform through every template
+    ops.append(("new", "zt", spec))
+    ops.append(("mcheck", ["uniformt", "zt"], True))
     i_load = len(ops)
     ops.append(("roundtrip", "r", "a"))
     expect.append(("reply", i_load, "ok", "Factory.fromJson rejected a toJson() document"))
@@ -156,10 +159,24 @@ def _strict(py, replies, h):
 def infinite_check(p):
     """Implementation-level (an infinite weight is outside the model's good runs): after fills with an infinite weight every
     total is 'inf' (and some statistics 'nan'); the document is still strict JSON, loads, and re-serialises to itself."""
-    spec = p["spec"]
+    import random
+
     rows = [(r[0], r[1]) for r in p["sa"]][:3]
     if not rows:
         return []
+    # the case's own tree, and a plain histogram (binning containers over Counts: every bin content is a bare number in the
+    # document) drawn from the case
+    rng = random.Random(len(p["sa"]) * 131 + len(p["sb"]) * 17 + int(abs(float(p["f"])) * 8))
+    plain = gen.gen_spec(rng, rng.randint(1, 2), kinds=["Bin", "SparselyBin", "CentrallyBin", "IrregularlyBin", "Categorize", "Stack", "Select", "Count"])
+    out = []
+    for spec in (p["spec"], plain):
+        out += _infinite_one(spec, rows)
+        if out:
+            break
+    return out
+
+
+def _infinite_one(spec, rows):
     try:
         h = gen.build(spec)
     except Exception:  # noqa: BLE001
@@ -181,6 +198,23 @@ def infinite_check(p):
     d = execs.diff_doc(execs.canon_doc(r.toJson()), execs.canon_doc(doc))
     if d:
         return ["after fills with an infinite weight the reload re-serialises to a different document: %s" % d]
+    # scaled by an infinite factor: filled bins become inf, empty ones NaN (0 * inf)
+    try:
+        m = gen.build(spec)
+        for dd, w in rows:
+            m.fill(dd, 1.0)
+        m = m * float("inf")
+    except Exception:  # noqa: BLE001
+        return []
+    try:
+        doc = m.toJson()
+        json.dumps(doc, allow_nan=False)
+        r = Factory.fromJson(doc)
+    except Exception as e:  # noqa: BLE001
+        return ["an aggregator scaled by an infinite factor does not survive a strict-JSON round trip: %s: %s" % (type(e).__name__, str(e)[:200])]
+    d = execs.diff_doc(execs.canon_doc(r.toJson()), execs.canon_doc(doc))
+    if d:
+        return ["an aggregator scaled by an infinite factor reloads to a different document: %s" % d]
     return []
 
 
